@@ -8,7 +8,8 @@ Nothing here is used by the registered checks; it is the harness for §6 of DESI
 import sys, os, json, subprocess, shutil, re, time
 
 VERIF = os.path.dirname(os.path.dirname(os.path.abspath(__file__)))
-SEED = "/tmp/seed"
+SEED = os.environ.get("SEED_ROOT", "/tmp/seed")
+SUFFIX = os.environ.get("SEED_SUFFIX", "")
 OUT = os.path.join(VERIF, "seeded")
 
 # which checks to run for a mutant of property X (own property first; related properties that share the mechanism)
@@ -36,7 +37,7 @@ def collect():
         unit = "UNIT-STYLE" in txt
         manual = re.search(r"MANUAL: (.*)", txt)
         ok = conf.get("suite_mutant_rc") == "0" and (unit or (conf.get("demo_clean_rc") == "0" and conf.get("demo_mutant_rc") not in (None, "0")))
-        dst = os.path.join(OUT, "%s-%s" % (pid, m))
+        dst = os.path.join(OUT, "%s-%s%s" % (pid, SUFFIX, m))
         if not ok:
             print("skip (not confirmed on the current tree):", name, conf)
             continue
@@ -57,7 +58,7 @@ def collect():
             needs = " ".join(m2.group(0).split())[:500]
         meta = {
             "property": pid,
-            "name": "%s-%s" % (pid, m),
+            "name": "%s-%s%s" % (pid, SUFFIX, m),
             "origin": "written by an independent sub-agent given only the property text and a scratch worktree",
             "breaks": "see README.md (the agent's description)",
             "needs_to_manifest": needs,
